@@ -118,6 +118,7 @@ type childPool struct {
 	results map[string]chan []byte
 	queue   []string
 	started bool
+	cost    func(input string) int // optional: expensive histories are started first
 }
 
 func newChildPool(sub string, toSpec func(string) (string, bool)) *childPool {
@@ -168,8 +169,28 @@ func (p *childPool) start() {
 		return
 	}
 	p.started = true
+	// the stored inputs (-corpus file) are run by the pool as well
+	for i, a := range os.Args {
+		if (a == "-corpus" || a == "--corpus") && i+1 < len(os.Args) {
+			if data, err := os.ReadFile(os.Args[i+1]); err == nil {
+				for _, l := range strings.Split(string(data), "\n") {
+					l = strings.TrimSpace(l)
+					if l == "" || strings.HasPrefix(l, "#") {
+						continue
+					}
+					if _, ok := p.results[l]; !ok {
+						p.results[l] = make(chan []byte, 1)
+						p.queue = append([]string{l}, p.queue...)
+					}
+				}
+			}
+		}
+	}
 	queue := append([]string(nil), p.queue...)
 	p.mu.Unlock()
+	if p.cost != nil {
+		sort.SliceStable(queue, func(i, j int) bool { return p.cost(queue[i]) > p.cost(queue[j]) })
+	}
 	workers := runtime.NumCPU()
 	if workers > 16 {
 		workers = 16
